@@ -201,3 +201,46 @@ def codecs(ctx, prop, mod):
     ctx.cov['samples'].append(dict(source='Codecs.tla row', row=[x for x in rows if x['kind'] == want][-1]))
     if r['mismatches']:
         violation(ctx, prop, 'codec:' + r['mismatches'][0]['kind'], dict(mismatches=r['mismatches'][:20]))
+
+
+def faults(ctx, prop, mod):
+    """C18: fault enumeration inside random scenarios, judged by TLC (Trace.tla fault clauses)"""
+    mod.build(ctx)
+    plan = [('full', 60, 25, 0.4, False), ('core', 60, 25, 0.4, False), ('twofa', 30, 20, 0.4, False)] if ctx.tier == 'quick' else \
+           [('full', 300, 30, 0.5, True), ('core', 300, 30, 0.5, True), ('twofa', 150, 25, 0.5, True), ('oauth', 150, 20, 0.5, True)]
+    combos, evals = set(), 0
+    from scripts import SCRIPTS
+    sf = os.path.join(ctx.tmp, 'fault-scripts.ndjson')
+    with open(sf, 'w') as f:
+        for s0 in SCRIPTS.get('C18', []):
+            f.write(json.dumps(s0) + '\n')
+    ctx.cov['scripted_scenarios'] = len(SCRIPTS.get('C18', []))
+    for fam, n, depth, p, ex in [('scripted', 0, 0, 0, True)] + plan:
+        tf = os.path.join(ctx.tmp, 'faults-%s.ndjson' % fam)
+        cmd = [ctx.bin, 'faults', '-family', fam, '-n', str(n), '-depth', str(depth), '-p', str(p), '-seed', str(ctx.seed), '-out', tf]
+        if fam == 'scripted':
+            cmd = [ctx.bin, 'faults', '-scen', sf, '-out', tf]
+        elif ex:
+            cmd.append('-exhaustive')
+        mod.run(cmd, 3000)
+        ents, lines = mod.validate(ctx, tf)
+        for l in lines:
+            if l['kind'] == 'ev' and l['e'].get('fault', 0) > 0 and l['resp'].get('faultHit'):
+                evals += 1
+                calls = l['resp'].get('calls') or [{}]
+                combos.add((l['e']['act'], calls[-1].get('kind'), l['e']['fault'], l['e']['faultE']))
+        if not ctx.cov['samples']:
+            fl = [l for l in lines if l['kind'] == 'ev' and l['e'].get('fault', 0) > 0][:3]
+            ctx.cov['samples'] = [dict(e={k: v for k, v in l['e'].items() if v not in (0, 'none', False, '')},
+                                       calls=[c['kind'] for c in (l['resp'].get('calls') or [])], outcome=l['resp']['class']) for l in fl]
+        mod.judge(ctx, prop, ents, lines, 'faults:' + fam)
+        if ctx.violations:
+            break
+    ctx.cov['evaluations'] = evals
+    ctx.cov['distinct_nontrivial'] = len(combos)
+    ctx.cov['rule'] = ('random scenarios; at a request step the world is forked, the request is run fault-free to learn its backend calls, '
+                       'then re-run with a failure injected at call k (quick: 1-2 seeded k; thorough: every k and error kind); a case is '
+                       'distinct by (action, failing call kind, call index, error kind) and non-trivial when the injected failure was actually hit')
+    ctx.cov['fault_sites'] = sorted('%s/%s#%d/%s' % c for c in combos)[:400]
+    if evals == 0:
+        mod.die('fault driver injected nothing (dead driver)')
